@@ -298,6 +298,62 @@ Definition as_found_view (iter : list nat) (c : call) : call :=
 Definition walk_order (nres : nat) (resid : list nat) : list nat :=
   flat_map (fun r => filter (fun j => Nat.eqb (nth j resid 0%nat) r) (seq 0 (length resid))) (seq 0 nres).
 
+(* ---------------------------------------------------------------- atom_indices as the caller passes them
+   sasa.py reads atom_indices twice: the selection mask is [1 if ii in atom_indices else 0 for ii in range(n_atoms)]
+   (Python membership: a negative entry never matches, True == 1, False == 0), the -1 overlay is
+   out[:, atom_mapping[atom_indices]] = 0 (numpy indexing: an integer in [-n, 0) wraps, a boolean list of length n selects
+   its True positions, anything else raises IndexError).  For non-negative integers the two readings agree. *)
+Inductive rawsel := RawInts (l : list Z) | RawBools (l : list bool).
+
+Definition raw_mask (n : nat) (r : rawsel) : list bool :=
+  match r with
+  | RawInts l => map (fun i => existsb (Z.eqb (Z.of_nat i)) l) (seq 0 n)
+  | RawBools l => map (fun i => existsb (fun b : bool => Z.eqb (Z.of_nat i) (if b then 1 else 0)) l) (seq 0 n)
+  end.
+
+Definition raw_overlay (n : nat) (r : rawsel) : option (list nat) :=
+  match r with
+  | RawInts l => if forallb (fun i => (- Z.of_nat n <=? i) && (i <? Z.of_nat n)) l
+                 then Some (map (fun i => Z.to_nat (if i <? 0 then i + Z.of_nat n else i)) l) else None
+  | RawBools l => if Nat.eqb (length l) n then Some (filter (fun i => nth i l false) (seq 0 n)) else None
+  end.
+
+Definition set_sel (sel : option (list nat)) (c : call) : call :=
+  {| c_K := c_K c; c_M := c_M c; c_tiny2 := c_tiny2 c; c_pts := c_pts c; c_tbl := c_tbl c; c_change := c_change c;
+     c_probe := c_probe c; c_elems := c_elems c; c_resid := c_resid c; c_nres := c_nres c; c_mode := c_mode c;
+     c_sel := sel; c_frames := c_frames c |}.
+
+Definition mode_refused (c : call) : bool :=
+  match c_mode c with AtomMode => false
+                    | ResidueMode => negb (contiguous (mapping_of (c_mode c) (length (c_elems c)) (c_resid c))) end.
+
+(* as found: mask from the first reading, overlay from the second (c_sel of the record is not used) *)
+Definition shrake_rupley_raw_cur (sched : schedule) (c : call) (r : rawsel) : result :=
+  let n := length (c_elems c) in
+  let mapping := mapping_of (c_mode c) n (c_resid c) in
+  let ng := match c_mode c with AtomMode => n | ResidueMode => c_nres c end in
+  if mode_refused c then ErrValue
+  else match raw_overlay n r with
+       | None => ErrIndex
+       | Some ov =>
+           match radii_of (c_tbl c) (c_change c) (c_probe c) (c_elems c) with
+           | None => ErrKey
+           | Some radii =>
+               let mask := raw_mask n r in
+               if existsb (fun fr => frame_clash (c_tiny2 c) (combine fr radii) mask) (c_frames c) then Exit1
+               else Ok (sasa_kernel (c_K c) (c_M c) (c_pts c) radii mask mapping (init_row ng mapping (Some ov))
+                                    true (c_frames c) sched)
+           end
+       end.
+
+(* minimal repair: atom_indices is given its numpy meaning once, and both the mask and the overlay come from that *)
+Definition shrake_rupley_raw (sched : schedule) (c : call) (r : rawsel) : result :=
+  if mode_refused c then ErrValue
+  else match raw_overlay (length (c_elems c)) r with
+       | None => ErrIndex
+       | Some ov => shrake_rupley true sched (set_sel (Some ov) c)
+       end.
+
 (* ---------------------------------------------------------------- comparison used by the correspondence
    The implementation's float32 areas are turned, by the harness, into an integer interval [lo, hi] in the
    unit K*U^2 (K = 1) per frame and output column, or None where the implementation returned exactly -1. *)
